@@ -32,11 +32,14 @@ std::vector<uint8_t> leg_encode(const std::vector<uint8_t> &p, size_t outcap)
 
 // feed a stream; statuses: one char per byte; packets: line (minus trailing CRC) at each NEWPACKAGE
 void leg_feed(const std::vector<uint8_t> &stream, unsigned cap, std::string &sts,
-              std::vector<std::vector<uint8_t>> &packets, std::vector<std::vector<uint8_t>> &rawlines)
+              std::vector<std::vector<uint8_t>> &packets, std::vector<std::vector<uint8_t>> &rawlines,
+              size_t *maxsize)
 {
     struct gstuff_autorecv_v1 a;
     memset(&a, 0, sizeof a);
-    char *buf = (char *)malloc(cap);
+    // exactly sized; capacity 0 = a zero-length region at the very end of a heap block
+    char *base = (char *)malloc(cap ? cap : 16);
+    char *buf = cap ? base : base + 16;
     gstuff_autorecv_setbuf_v1(&a, buf, (int)cap);
     for (uint8_t b : stream)
     {
@@ -51,6 +54,7 @@ void leg_feed(const std::vector<uint8_t> &stream, unsigned cap, std::string &sts
         case GSTUFF_DATA_ERROR_V1: ch = 'S'; break;
         }
         sts.push_back(ch);
+        if (maxsize && (size_t)sline_size(&a.line) > *maxsize) *maxsize = (size_t)sline_size(&a.line);
         if (s == GSTUFF_NEWPACKAGE_V1)
         {
             int n = sline_size(&a.line);
@@ -61,5 +65,5 @@ void leg_feed(const std::vector<uint8_t> &stream, unsigned cap, std::string &sts
             packets.push_back(raw);
         }
     }
-    free(buf);
+    free(base);
 }
